@@ -54,7 +54,7 @@ def render_chunk(names, seqs, ch):
     if fmt == "msf":
         return formats.write_msf(names, rows, kind=ch.get("kindletter", "P"), width=ch.get("width", 50) or 50,
                                  group=ch.get("group", 10), gapchar=gc if gc in ".-~" else ".", eol=eol,
-                                 pileup=ch.get("pileup", True))
+                                 pileup=ch.get("pileup", True), ruler=ch.get("ruler", False))
     if fmt == "clu":
         return formats.write_clustal(names, rows, width=ch.get("width", 60) or 60, eol=eol, cons=ch.get("cons", True),
                                      counts=ch.get("counts", False), gapchar="-",
